@@ -123,7 +123,7 @@ def r13_1_year_cache_keys(ctx: Ctx) -> RuleResult:
 
 @rule("C13")
 def r13_2_zone_interval_cache(ctx: Ctx) -> RuleResult:
-    rr = RuleResult("R13.2", "zone-interval cache: node trusted only for the exact period; node covers the whole period (loop to the period end)", min_instances=4)
+    rr = RuleResult("R13.2", "zone-interval cache: node trusted only for the exact period; node covers the whole period (loop to the period end); lookup walks the chain to the containing interval", min_instances=5)
     M = ctx.M
     f = M.func("_CachingZoneIntervalMap.__HashArrayCache.get_zone_interval")
     SHIFT = M.fold(ast.parse("_PERIOD_SHIFT", mode="eval").body, None, f.mod)
@@ -212,6 +212,33 @@ def r13_2_zone_interval_cache(ctx: Ctx) -> RuleResult:
                 rr.fail(g.qual, f"the loop bound `{bound}` is {lb} relative to the period start; a period is {want} days (days = period << {SHIFT}): intervals near the period end are dropped or overrun", ctx.loc(g, w))
             else:
                 rr.ok({"fn": g.qual, "loop_until": f"days + {want}"})
+    # lookup: a period can hold several intervals, chained newest-first through `_previous`; the lookup has to walk the chain
+    # *until* the interval starts at or before the instant (or the chain ends) - a loop, whose exit condition gives exactly that
+    rr.inst()
+    walk = None
+    for h in parts:
+        for n in ast.walk(h.node):
+            if isinstance(n, ast.Return) and n.value is not None and unparse(n.value).endswith("._interval"):
+                blk = getattr(getattr(n, "_parent", None), "body", [])
+                if n in blk and blk.index(n) > 0:
+                    walk = (h, blk[blk.index(n) - 1], n)
+    if walk is None:
+        rr.fail(f.qual, "the lookup does not return `<node>._interval` after a chain walk", ctx.loc(f))
+    else:
+        h, prev, ret = walk
+        ok_loop = isinstance(prev, ast.While) and "_previous" in unparse(prev.test) and "_raw_start" in unparse(prev.test) and not any(isinstance(x, ast.Break) for x in ast.walk(prev))
+        if ok_loop:
+            from ..exc import atoms as _atoms
+
+            # on exit the test is false: either no previous node, or raw_start <= instant
+            t = prev.test
+            conj = t.values if isinstance(t, ast.BoolOp) and isinstance(t.op, ast.And) else [t]
+            has_cmp = any(any(op in (">",) and "_raw_start" in a for a, op, b_ in _atoms(v, True)) or any(op in ("<",) and "_raw_start" in b_ for a, op, b_ in _atoms(v, True)) for v in conj)
+            ok_loop = has_cmp
+        if ok_loop:
+            rr.ok({"fn": h.qual, "walk": unparse(prev.test)[:80]})
+        else:
+            rr.fail(h.qual, f"the chain of intervals inside a period is not walked by a loop up to the interval containing the instant (`{unparse(prev)[:70]}`): with two transitions in one 32-day period the newer interval is returned for an instant before it", ctx.loc(h, prev))
     # node immutability: fields written only in the private constructor
     nc = M.cls("_CachingZoneIntervalMap.__HashArrayCache._HashCacheNode")
     rr.inst()
